@@ -21,6 +21,13 @@ Proof. exact get_denote. Qed.
 Theorem C15_len_counts_distinct : forall h, len (denote h) = N.of_nat (List.length (keys_of h)).
 Proof. exact len_denote. Qed.
 
+Theorem C15_is_empty : forall h, is_empty (denote h) = match h with [] => true | _ => false end.
+Proof. exact is_empty_denote. Qed.
+
+(** indexing by name yields the latest value and panics exactly when the name was never inserted *)
+Theorem C15_index_latest_or_panic : forall h k, index (denote h) k = last_val h k.
+Proof. exact index_denote. Qed.
+
 Theorem C15_extend_one_by_one : forall h l, extend (denote h) l = denote (h ++ l).
 Proof. exact extend_denote. Qed.
 
